@@ -9,7 +9,7 @@ use crate::docs::{self, DocParams, MutKind};
 use crate::gen::{self, SIGMA};
 use crate::obs::{budget_for, make_iter, parse_script, parse_slice, step_next, Cfg, MaxSize, Obs, Step, Term};
 use crate::refmodel::{hex, ref_encode, Kind, NItem, Node, SizeEnc, Val};
-use crate::spec::{v_refspec, RefSpec, ID_B, ID_M, ID_MU, ID_ROOT, ID_TAG, ID_U, ID_VOID, V};
+use crate::spec::{v_refspec, RefSpec, ID_B, ID_K, ID_KU, ID_L, ID_LB, ID_M, ID_MU, ID_N, ID_ROOT, ID_TAG, ID_U, ID_VOID, V};
 
 /// Source that reports a temporary end of file (Ok(0)) exactly once at each of the given positions.
 pub struct PauseScript<'a> {
@@ -131,6 +131,14 @@ impl<'a> Runner<'a> {
             } else {
                 self.deviation_schedules(ctx, input, &cfg, &reference, origin, devs, 6);
             }
+            // every read short: uniform chunk sizes (reaches reads far into long inputs, e.g. in the middle of a
+            // 16-byte header behind other elements)
+            if input.len() > max_comp_len.min(6) {
+                for c in [1usize, 2, 3, 5, 7, 11, 13] {
+                    let steps = vec![Step::Max(c); input.len() / c + 2];
+                    self.compare(ctx, input, &cfg, &steps, &reference, origin);
+                }
+            }
         }
     }
 
@@ -238,7 +246,7 @@ pub fn run(ctx: &mut Ctx) {
     ctx.meta("rule", "cases: (input, configuration, read schedule); inputs = Σ* up to length n, documents of T∘E, their truncations at every byte and single-byte corruptions, two documents > 64 KiB; for inputs up to the composition bound ALL 2^(len-1) compositions into read() results x 14 capacities (0,1,2,3,4,7,8,15,16,17,len-1,len,len+1,default); longer inputs: schedules with <= 2 short reads x capacities; with end-of-stream closing off: Ok(0) pauses at every subset of (up to 8) tag boundaries x {default, 16, chunk 3, capacity 0 with 1-byte reads}. Oracle: differential - items, offsets and the first error (all fields) equal the slice parse of the same bytes and configuration. Non-trivial: schedules with >= 1 short read or pause.");
     ctx.meta("bounds", &format!("Σ* length <= {}; all compositions for inputs <= {} bytes; <= 2 deviations beyond", sigma_n, max_comp_len));
     ctx.meta("assumptions", "Read implementations that return more than requested or lie about lengths are out of scope");
-    for c in ["first_read_shorter_than_a_header", "capacity_below_16", "input_larger_than_capacity(compaction)", "temporary_eof_pauses", "big_inputs(growth)"] {
+    for c in ["long_header_documents", "first_read_shorter_than_a_header", "capacity_below_16", "input_larger_than_capacity(compaction)", "temporary_eof_pauses", "big_inputs(growth)"] {
         ctx.expect_nonzero(c);
     }
     let strict = Cfg::strict();
@@ -272,6 +280,36 @@ pub fn run(ctx: &mut Ctx) {
         }
         !ctx.should_stop()
     });
+    // headers longer than 12 bytes (8-byte ids with 8-byte size fields), known and unknown ids
+    {
+        use crate::refmodel::Kind;
+        let mut docs_lh: Vec<(Vec<Node>, Cfg)> = Vec::new();
+        let spine = |l_size: SizeEnc, lb_size: SizeEnc| {
+            let mut lb = Node::leaf(ID_LB, Val::B(vec![1, 2, 3]));
+            lb.size = lb_size;
+            let mut l = Node::master(ID_L, vec![lb]);
+            l.size = l_size;
+            vec![Node::master(ID_ROOT, vec![Node::leaf(ID_U, Val::U(1)), Node::master(ID_M, vec![Node::master(ID_N, vec![Node::master(ID_K, vec![Node::leaf(ID_KU, Val::U(2)), l, Node::leaf(ID_KU, Val::U(3))])])])])]
+        };
+        docs_lh.push((spine(SizeEnc::Width(8), SizeEnc::Width(8)), strict.clone()));
+        docs_lh.push((spine(SizeEnc::Unknown(8), SizeEnc::Min), strict.clone()));
+        docs_lh.push((spine(SizeEnc::Width(5), SizeEnc::Width(7)), strict.clone()));
+        let raw8 = Node { id: 0x0100000000000003, kind: Kind::RawLeaf(vec![9, 9, 9]), size: SizeEnc::Width(8) };
+        let raw7 = Node { id: 0x02000000000005, kind: Kind::RawLeaf(vec![7]), size: SizeEnc::Width(6) };
+        docs_lh.push((vec![Node::master(ID_ROOT, vec![Node::leaf(ID_U, Val::U(1)), raw8.clone(), Node::leaf(ID_U, Val::U(2)), raw7.clone()])], tolerant.clone()));
+        docs_lh.push((vec![Node::master(ID_ROOT, vec![raw8, raw7])], strict.clone()));
+        for (i, (doc, cfg)) in docs_lh.iter().enumerate() {
+            if !ctx.mine(i as u64) {
+                continue;
+            }
+            let (bytes, _) = ref_encode(doc);
+            ctx.count("long_header_documents", 1);
+            r.sweep(ctx, &bytes, cfg, "long-header-doc", max_comp_len, 2);
+            for cut in 1..bytes.len() {
+                r.sweep(ctx, &bytes[..cut], cfg, "long-header-doc-truncated", max_comp_len.min(8), 1);
+            }
+        }
+    }
     // inputs larger than the default buffer
     for (i, (name, doc)) in big_docs().into_iter().enumerate() {
         let (bytes, _lay) = ref_encode(&doc);
